@@ -362,6 +362,20 @@ m("block-comment-unclosed-ok", ["C14"], "break", "lexer.go",
 m("dotident-from-new-token", ["C14"], "break", "lexer.go",
   "		nextDotIdent := isNextDotIdent(l.lastTokenKind)", "		nextDotIdent := isNextDotIdent(l.Token.Kind)", "the dot-identifier mode asks the token that was just reset")
 
+# round 6
+m("spaces-four-only", ["C16"], "break", "lexer.go",
+  "		case unicode.IsSpace(r):\n			l.skipN(size)", "		case r == ' ' || r == '\\t' || r == '\\n' || r == '\\r':\n			l.skipN(size)", "form feed and vertical tab are no longer white space")
+m("spaces-underscore", ["C16", "C13"], "break", "lexer.go",
+  "		case unicode.IsSpace(r):\n			l.skipN(size)", "		case unicode.IsSpace(r) || r == 0x1f:\n			l.skipN(size)", "the unit separator 0x1f is skipped as white space")
+m("spaces-trimleft", ["C16", "C13"], "keep", "lexer.go",
+  "	for !l.eof() {\n		r, size := utf8.DecodeRuneInString(l.Buffer[l.pos:])\n		switch {\n		case unicode.IsSpace(r):\n			l.skipN(size)\n		default:\n			return\n		}\n	}\n}\n\nfunc (l *Lexer) skipComment",
+  "	for !l.eof() {\n		r, size := utf8.DecodeRuneInString(l.Buffer[l.pos:])\n		if !unicode.IsSpace(r) {\n			return\n		}\n		l.skipN(size)\n	}\n}\n\nfunc (l *Lexer) skipComment", "the same loop written with an early return")
+m("selector-peek-star", ["C16", "C08"], "break", "parser.go",
+  "			lexer := p.Lexer.Clone()\n			p.nextToken()\n			if p.Token.Kind == \"*\" { // expr.* case\n				p.Lexer = lexer\n				return expr\n			}\n",
+  "			if p.Lexer.peekIs(0, '*') { // expr.* case\n				return expr\n			}\n			p.nextToken()\n", "the byte behind '.' decides, not the next token")
+m("tryparse-cluster-no-restore", ["C08"], "break", "parser.go",
+  "	if !p.Token.IsKeywordLike(\"INTERLEAVE\") {\n		p.Lexer = lexer\n		return nil\n	}", "	if !p.Token.IsKeywordLike(\"INTERLEAVE\") {\n		return nil\n	}", "the attempt answers no with the comma consumed")
+
 def sh(cmd, cwd=None):
     return subprocess.run(cmd, shell=True, cwd=cwd, capture_output=True, text=True)
 
